@@ -95,6 +95,16 @@ func callSplit(re, in string) c11call {
 	}}
 }
 
+// callIdle lets virtual time pass (the timeout clock runs out and its goroutine exits when the idle time is long enough)
+func callIdle(d time.Duration) c11call {
+	return c11call{fmt.Sprintf("idle(%v)", d), func(w *c11world) string {
+		if vsched.Active() { // the free-running race-detector leg has no virtual clock: no idle period there
+			vsched.Work(int64(d))
+		}
+		return ""
+	}}
+}
+
 func c11List(tier string) []c11scen {
 	thorough := tier == "thorough"
 	pb, db := 3, 1
@@ -157,6 +167,14 @@ func c11List(tier string) []c11scen {
 		return w
 	}, pb: 1,
 		threads: [][]c11call{{callFind("T1", "aab")}, {callFind("T2", "ab")}, {callMatchString("U", "ab")}}})
+	// S10 the clock has run out (idle longer than timeout + slop) and two goroutines come back at the same instant
+	add(c11scen{name: "S10 timed||timed after the clock ran out", build: func() *c11world {
+		w := mk(map[string][]any{"T1": {`(a)+b`}, "T2": {`a(b)`}})()
+		w.re["T1"].MatchTimeout = 2 * time.Second
+		w.re["T2"].MatchTimeout = 3 * time.Second
+		return w
+	}, pb: 1,
+		threads: [][]c11call{{callFind("T1", "aab"), callIdle(9 * time.Second), callFind("T1", "xaab")}, {callIdle(9 * time.Second), callFind("T2", "ab")}}})
 	// S8 balancing pattern ∥ bool-only call on the same Regexp
 	add(c11scen{name: "S8 balancing||bool", build: mk(map[string][]any{"R": {`(?<o>a)+(?<-o>b)+(?(o)(?!))`}}), stepK: 8,
 		threads: [][]c11call{{callFind("R", "aabb"), callIterate("R", "abab")}, {callMatchString("R", "aab"), callMatchRunes("R", "ab")}}})
